@@ -14,7 +14,15 @@ LEVEL = "model_checking"
 
 def run(chk, tier, seed):
     n = 4000 if tier == "quick" else 12000
-    poolcheck.run_pool(chk, "XrSeq", "XrSeq.cfg", "c15", n, 14, seed, kind="sequence")
+    recs, sources = [], {}
+
+    def post(j, c, o):
+        sources[j["id"]] = j["src"]
+        for name, d in (o.get("values") or {}).items():
+            poolcheck.seq_records(d, recs, (j["id"], name))
+
+    poolcheck.run_pool(chk, "XrSeq", "XrSeq.cfg", "c15", n, 14, seed, kind="sequence", post=post)
+    poolcheck.check_seq_reprs(chk, recs, sources, "c15-repr")
     chk.cov["rule"] = ("TLC -simulate walks of the XrSeq pool machine: 12 operations per program over earlier bindings; "
                        "non-trivial = distinct rendered program")
     chk.assumptions += ["infinite sequences are compared on their first 10 elements", "operations the documentation leaves "
